@@ -1185,3 +1185,61 @@ func isLifetimeTie(f *ssa.Function, u *ssa.UnOp) bool {
 	}
 	return false
 }
+
+// checkCallersVTA (thorough tier): with the VTA call graph (interface and
+// dynamic calls resolved by value-flow type analysis over the whole program),
+// every caller of the listed functions lies in the allowed set.  This closes
+// the gap the syntactic who-may rules leave for method values and dynamic calls.
+func checkCallersVTA(c *Ctx) {
+	rule := "T-WHO(vta)"
+	targets := map[string][]string{
+		"_cache.doSync":                        {"_cache.run", "_cache.doRefilter"},
+		"_cache.doUpdate":                      {"_cache.run"},
+		"_cache.doRefilter":                    {"_cache.run"},
+		"_cache.doList":                        {"_cache.run"},
+		"_subscription.send":                   {"controller.distributeEvents", "publisher.distributeEvent"},
+		"filterSubscription.distributeEvents":  {"filterSubscription.run"},
+		"publisher.distributeEvent":            {"publisher.run"},
+		"publisher.createSubscription":         {"publisher.run"},
+		"controller.distributeEvents":          {"controller.run"},
+		"handler.OnInitialize":                 {"monitor.run"},
+		"handler.OnCreate":                     {"monitor.run"},
+		"handler.OnUpdate":                     {"monitor.run"},
+		"handler.OnDelete":                     {"monitor.run"},
+	}
+	g := c.P.VTA()
+	for name, allowed := range targets {
+		f := c.P.Func("", name)
+		if f == nil {
+			c.undecided(rule, name, "-", "anchor function not found")
+			continue
+		}
+		node := g.Nodes[f]
+		ok := map[string]bool{}
+		for _, a := range allowed {
+			ok[a] = true
+		}
+		n := 0
+		if node != nil {
+			for _, e := range node.In {
+				caller := e.Caller.Func
+				if caller == nil || !inRepo(caller) && caller.Synthetic == "" {
+					// callers outside the repository cannot exist for unexported functions; wrappers are followed below
+				}
+				cn := fnName(caller)
+				// synthetic wrappers/bound-method closures: attribute to their callers
+				if caller.Synthetic != "" {
+					for _, e2 := range e.Caller.In {
+						n++
+						c2 := fnName(e2.Caller.Func)
+						c.check(ok[c2], rule, name+"/called-via-wrapper-from/"+c2, c.P.instrPos(e2.Site), "", name+" is reachable (through "+caller.Synthetic+") from "+c2+", which is outside its owner's goroutine")
+					}
+					continue
+				}
+				n++
+				c.check(ok[cn], rule, name+"/called-from/"+cn, c.P.instrPos(e.Site), "", name+" is called from "+cn+" according to the VTA call graph, outside its owner's goroutine")
+			}
+		}
+		c.check(n >= 1, rule, name+"/has-callers", c.P.fnPos(f), fmt.Sprintf("%d call edges", n), name+" has no caller in the VTA call graph (anchor moved?)")
+	}
+}
